@@ -4,7 +4,56 @@
 use crate::abacus::*;
 use crate::history::*;
 use crate::report::Ctx;
+use crate::session::*;
+use crate::wire;
 use rand::Rng;
+use serde_json::json;
+
+/// The caller's randomness repeats itself between two calls (a generator re-created from the same seed, a VM snapshot
+/// resumed twice): the payment's new state then carries the same nonce and revocation pair as the old one.  Such a
+/// customer works in memory - every message it emits is accepted - so every state it holds must also be storable and
+/// restorable: restore is checked at the Started and the Locked stage (binary and JSON), with byte-identical results.
+fn repeating_stream_case(ctx: &mut Ctx, idx: usize, w: &World) {
+    if !ctx.begin_case(idx, "restore-under-a-repeating-stream") { return; }
+    let a = Agreed::random(ctx);
+    let (n, s) = (crate::gen::nonzero(&mut ctx.prng), crate::gen::rand_scalar(&mut ctx.prng));
+    ctx.forced_next = vec![n, s];
+    let mut sess = match open_session(ctx, w, &a) { Some(x) => x, None => return };
+    let ready = match sess.ready.take() { Some(r) => r, None => return };
+    let amount = crate::props::c02::valid_amount(ctx, sess.cb, sess.mb);
+    ctx.forced_next = vec![n, s];
+    let run = match pay_start(ctx, w, &a, ready, amount) { StartOutcome::Started(r) => *r, _ => return };
+    let sb = wire::ser(&run.started);
+    let same_pair = sb[64..129] == sb[145 + 64..145 + 129];
+    ctx.count(&format!("repeating-stream:old-and-new-revocation-pair-{}", if same_pair { "equal" } else { "differ" }));
+    let check = |ctx: &mut Ctx, stage: Stage, what: &str| {
+        let b = stage.bytes();
+        ctx.evals += 1;
+        match stage.restore() {
+            Ok(r) if r.bytes() == b => ctx.count(&format!("repeating-stream:restore-{}:same", what)),
+            Ok(_) => ctx.violation(&format!("a {} state held under a repeating stream restores to different bytes", what), json!({"class": "restore-differs", "stage": what, "bytes": hex::encode(&b)})),
+            Err(e) => ctx.violation(&format!("a {} state the customer holds (old and new state share nonce and revocation pair because the caller's randomness repeated) cannot be restored: {}", what, e), json!({"class": "restore-fails", "stage": what, "bytes": hex::encode(&b), "error": e})),
+        }
+        match stage.restore_json() {
+            Ok(j) if j == b => ctx.count(&format!("repeating-stream:restore-json-{}:same", what)),
+            Ok(_) => ctx.violation(&format!("a {} state held under a repeating stream restores from JSON to different bytes", what), json!({"class": "restore-json-differs", "stage": what})),
+            Err(e) => ctx.violation(&format!("a {} state held under a repeating stream cannot be restored from JSON: {}", what, e), json!({"class": "restore-json-fails", "stage": what, "error": e})),
+        }
+    };
+    let started_copy: zkabacus_crypto::customer::Started = match wire::de(&sb) { Ok(x) => x, Err(e) => {
+        ctx.violation(&format!("a Started state the customer holds (the caller's randomness repeated) cannot be restored: {}", e), json!({"class": "restore-fails", "stage": "started", "bytes": hex::encode(&sb), "error": e}));
+        return;
+    } };
+    check(ctx, Stage::Started(started_copy), "started");
+    // the merchant accepts the payment; the customer locks; the Locked state must restore as well
+    if let Some(o) = allow_check(ctx, w, &run.nonce_s, amount, &a.ctx_bytes, &run.d, None, "repeating-stream") {
+        if let Some((_un, closing)) = o.accepted {
+            if let Ok((locked, _lm)) = run.started.lock(closing, &w.customer) {
+                check(ctx, Stage::Locked(locked), "locked");
+            }
+        }
+    }
+}
 
 pub fn run(ctx: &mut Ctx) {
     let n = if ctx.thorough() { 20 } else { 5 };
@@ -18,5 +67,8 @@ pub fn run(ctx: &mut Ctx) {
         let ok = run_history(ctx, &worlds[k % 2], &worlds[1 - k % 2], &cfg);
         ctx.count(if ok { "history:complete" } else { "history:stopped-early" });
         ctx.traces += 1;
+    }
+    for k in 0..(if ctx.thorough() { 4 } else { 1 }) {
+        repeating_stream_case(ctx, (1000 + k) * ctx.nshards + ctx.shard, &worlds[k % 2]);
     }
 }
